@@ -94,6 +94,10 @@ class References:
   def _oriented_item(self, item):
     if isinstance(item, gfapy.Line):
       item = gfapy.OrientedLine(item, "+")
+    elif isinstance(item, gfapy.OrientedLine):
+      # (a new oriented reference: the one given may be an item of another
+      # group and is not to be changed)
+      item = gfapy.OrientedLine(item.line, item.orient)
     else:
       item = gfapy.OrientedLine(item)
     item.validate()
